@@ -52,12 +52,18 @@ CHECKS = {
     "C12": dict(cat="proof", tech="Coq theorems (causal cone, once-only input evaluation, non-interference) for every program of the language + correspondence k_calllog (call logs of lazily defined Hamiltonians)",
                 text="C12_causal, C12_once, C12_noninterference for every program whose input names contain no '@'; C12_definition (only zeroth-order terms evaluated at definition time) is decided by the harness.",
                 note=BASE_NOTE),
+    "C13": dict(cat="proof", tech="Coq: each relation is an LAHom between concrete series instances (Series/Sym*.v) + transport theorems (naturality/uniqueness, Alg/Equivariance.v) + exact relation oracles on the implementation",
+                text="C13_scale, C13_permute, C13_vanishing, C13_merge, C13_power: for the concrete algebra of series of block matrices with the wiring discharged, the map applied to H is the map relating U, U† and H_tilde (merge and power are instances of a general push-forward theorem along a monoid morphism with finite fibres). Hermitian mode; the non-Hermitian relations are decided by the oracles only.",
+                note=ALG_NOTE),
     "C14": dict(cat="proof", tech="Coq theorems on hand models of the container normalisation and of operator_to_BlockSeries tied by correspondence k_formats (vm_compute) + pairwise exact comparison of all presentations on the implementation",
                 text="9 theorems: all container formats denoting the same family normalise to the same series, list orders, symbols sorted by name, Taylor coefficients for polynomial symbolic dependence (_partial: non-polynomial analytic dependence delegated to sympy), nested blocks, projection L_i^dagger A R_j (entry formula; sub-matrices for index vectors), Hermitian fill. The eigenbasis-rotation clause is the LAHom instance C15_degenerate_rotation / transport theorems (Alg/Equivariance.v).",
                 note=BASE_NOTE + "Dense / sparse / symbolic values are one model: their equivalence is the correspondence of all three branches with it."),
     "C20": dict(cat="proof", tech="Coq theorems on a hand model of the validation order of block_diagonalize (definition time and lazily executed tests) tied by correspondence k_validate (malformed-input stream, exception class and stage) + oracle on the implementation",
                 text="12 theorems: each listed ill-posed class, embedded in any otherwise arbitrary call record, is rejected with a listed exception no later than the first evaluation needing the quantity; well-posed calls are accepted; no division by a quantity within tolerance on accepted numeric input (with C16_diagonal_nodiv). Class definitions follow the code (symbolic blocks whose vanishing sympy cannot decide are accepted with a warning; Hermiticity is checked only for sympy-expression input). One residual corner (custom solver + single block + bare all-False mask raises UnboundLocalError) is kept visible in the statements.",
                 note=BASE_NOTE + "numpy.isclose/allclose and sympy is_zero/is_hermitian/Eq are given facts of the abstract call record."),
+    "C15": dict(cat="proof", tech="Coq: LAHom instances (conjugation, basis permutation incl. block relabelling, degenerate rotation, direct sum) + direct least-action arguments (shift, scale) + transport/uniqueness + exact relation oracles on the implementation",
+                text="C15_conjugation, C15_basis_perm(_general), C15_relabel, C15_degenerate_rotation (+ mask condition), C15_shift, C15_scale, C15_direct_sum (+ least_action core) for the concrete algebra of series of block matrices. Tolerance comparisons of the real code are assumed not to flip under the transformation (the property's own precondition); non-Hermitian relations by the oracles only.",
+                note=ALG_NOTE),
     "C16": dict(cat="proof", tech="Coq theorems on hand models of the four solvers (stdlib / MathComp) tied by correspondence k_sylvdiag, k_greens, k_group, k_kpm, k_scalar",
                 text="C16_diagonal (+ antiherm, nodiv), C16_direct (+ pivots, regular, both orientations), C16_group, C16_kpm_contract (+ terminates, bound, small max_moments), C16_scalar: each built-in solver returns a solution of its equation where it is defined; external numerics modelled by contracts.",
                 note=BASE_NOTE + "scipy factorized/MUMPS, pivoted QR, eigsh, KDTree are contracts; invertibility of the pivot minors is a hypothesis checked exactly by the harness on every case; KPM convergence in floating point is outside the theorems."),
